@@ -1,4 +1,5 @@
 import PyaModel.Spec.SigAssignSpec
+import PyaModel.Spec.OverrideSpec
 /-!
 # Proofs/C07 — helper lemmas for callable compatibility
 
@@ -1756,6 +1757,54 @@ theorem starKwClash_cex (E A : TDefSig τ) (hE : E.WF) (hD : D07_starKwClash E A
       left
       exact hsub _ (List.mem_map.mpr ⟨p, hp, rfl⟩)
 
+
+/-! ## Part F — the override route -/
+
+theorem bindSelf_method (a : τ) (m : FnMember τ) (hm : m.static = false) :
+    bindSelf (m.raw a) = some m.hdr.tsig := by
+  unfold FnMember.raw bindSelf
+  simp only [hm, Bool.false_eq_true, if_false]
+  cases m.hdr.po.isEmpty <;> rfl
+
+/-- For two methods (neither is a staticmethod) `_can_assign_to_base_callable` is
+`Signature.can_assign` on the headers without `self`. -/
+theorem callableOk_methods (R : TyRel τ) (a : τ) (b c : FnMember τ)
+    (hb : b.static = false) (hc : c.static = false) :
+    callableOk R (b.raw a) (c.raw a) = sigCanAssign R b.hdr.tsig c.hdr.tsig := by
+  unfold callableOk
+  rw [bindSelf_method a b hb, bindSelf_method a c hc]
+
+/-- Outside `staticFirst`, an accepted pair of function members has compatible headers. -/
+theorem callableOk_hdr (R : TyRel τ) (a : τ) (b c : FnMember τ)
+    (hacc : callableOk R (b.raw a) (c.raw a) = true) (hs : D07_staticFirst R b c = false) :
+    sigCanAssign R b.hdr.tsig c.hdr.tsig = true := by
+  cases hb : b.static <;> cases hc : c.static <;>
+    simp only [D07_staticFirst, hb, hc, Bool.or_false, Bool.or_true, Bool.false_and, Bool.true_and,
+      Bool.not_eq_false'] at hs
+  · rw [callableOk_methods R a b c hb hc] at hacc; exact hacc
+  · cases h : sigCanAssign R b.hdr.tsig c.hdr.tsig <;> simp_all
+  · cases h : sigCanAssign R b.hdr.tsig c.hdr.tsig <;> simp_all
+  · cases h : sigCanAssign R b.hdr.tsig c.hdr.tsig <;> simp_all
+
+theorem overrideOk_iff (R : TyRel τ) (defs : Nat → Option (Member τ)) (anc : List Nat)
+    (child : Member τ) :
+    overrideOk R defs anc child = true ↔
+      ∀ i ∈ anc, ∀ b, defs i = some b → memberOk R b child = true := by
+  unfold overrideOk
+  simp only [List.all_eq_true, List.mem_filterMap]
+  constructor
+  · intro h i hi b hb
+    exact h b ⟨i, hi, hb⟩
+  · rintro h b ⟨i, hi, hb⟩
+    exact h i hi b hb
+
+theorem overrideOk_perm (R : TyRel τ) (defs : Nat → Option (Member τ)) (l₁ l₂ : List Nat)
+    (hp : l₁.Perm l₂) (child : Member τ) :
+    overrideOk R defs l₁ child = overrideOk R defs l₂ child := by
+  rw [Bool.eq_iff_iff, overrideOk_iff, overrideOk_iff]
+  constructor
+  · intro h i hi; exact h i (hp.mem_iff.mpr hi)
+  · intro h i hi; exact h i (hp.mem_iff.mp hi)
 
 theorem posKwClash_unsound (E A : TDefSig τ) (hE : E.WF) (hD : D07_posKwClash E A = true) :
     ¬ BehSound E A := by
